@@ -208,7 +208,10 @@ def rule_statics(ctx):
             for f in v["fields"]:
                 if "Atomic" in f["ty"] or "Mutex<" in f["ty"] or "RwLock<" in f["ty"] or "Cell<" in f["ty"]:
                     atom.append("%s.%s" % (p, f["name"]))
-    ctx.check(sorted(atom) == ["search::Search.running", "uci::Uci.search_running"], "shared-cells", "the only shared cells in crate types are the running flag (Search.running, Uci.search_running)", bad_what="shared / interior-mutable fields: %s" % sorted(atom))
+    # the running flag: once in Search, once on the input side (a field of Uci, or of a private struct of the uci module that
+    # Uci holds next to the join handle)
+    ok_cells = len(atom) == 2 and "search::Search.running" in atom and any(a.startswith("uci::") and "Atomic" in next((f["ty"] for v in ix.adts[a.rsplit(".", 1)[0]]["variants"] for f in v["fields"] if f["name"] == a.rsplit(".", 1)[1]), "") for a in atom)
+    ctx.check(ok_cells, "shared-cells", "the only shared cells in crate types are the running flag (Search.running and its published clone in the uci module)", bad_what="shared / interior-mutable fields: %s" % sorted(atom))
 
 
 def rule_fresh(ctx):
@@ -315,6 +318,9 @@ def rule_default_limits(ctx):
 
 RULES = [("default-limits", rule_default_limits), ("sources", rule_sources), ("hash-order", rule_hash_order), ("seed", rule_seed), ("statics", rule_statics), ("fresh", rule_fresh),
          ("bench-clear", rule_bench_clear), ("no-race", rule_no_race)]
+# "the same search gives the same node count" needs the search to be alone: a `go` is refused while a search runs, and the
+# engine never forgets a running search (C10)
+RULES += engine.premise_rules("c10", ["handle-writers", "go-reaches-spawn"])
 
 
 def run(tier):
